@@ -481,6 +481,27 @@ def r5(ctx):
     dep = [n.id for n in gd.nodes.values() if n.has_await() and any(isinstance(c.func, ast.Attribute) and c.func.attr == "deploy" and unparse(c.func.value) != "self" for c in n.calls())]
     reg = [n for n in gd.nodes.values() if n.kind == "stmt" and isinstance(n.ast, ast.Assign) and unparse(n.ast.targets[0]).startswith("self.deployments_map[")]
     sets = [n for n in gd.nodes.values() if _is_set_call(n, "self.events_map[")]
+    if (not dep or not reg) and sets:
+        # the creation of the connector (registration + eager deploy) was moved into a private helper awaited by _deploy
+        for n in gd.nodes.values():
+            for c in n.calls():
+                if n.has_await() and isinstance(c.func, ast.Attribute) and isinstance(c.func.value, ast.Name) and c.func.value.id == "self" and c.func.attr.startswith("_"):
+                    for q in p.resolve_call(d, c, fanout=False):
+                        h = p.functions.get(q)
+                        if h is None or h is d:
+                            continue
+                        gh = h.cfg
+                        hdep = [m.id for m in gh.nodes.values() if m.has_await() and any(isinstance(x.func, ast.Attribute) and x.func.attr == "deploy" and unparse(x.func.value) != "self" for x in m.calls())]
+                        hreg = [m for m in gh.nodes.values() if m.kind == "stmt" and isinstance(m.ast, ast.Assign) and unparse(m.ast.targets[0]).startswith("self.deployments_map[")]
+                        hsets = [m for m in gh.nodes.values() if _is_set_call(m, "self.events_map[")]
+                        if hdep and hreg:
+                            ctx.ob("R5", f"{h.name} (creates the connector for _deploy) does not release the waiters itself", not hsets, func=h, node=h.node,
+                                   instance="_deploy:helper-no-set", message=f"{h.name} sets the deployment event before _deploy knows the deployment completed")
+                            early = next((pth for s_ in sets for pth in [gd.path(gd.entry, [s_.id], avoid=[n.id], kinds=NORMAL)] if pth), None)
+                            ctx.ob("R5", "the deployment event is set only after connector.deploy() returned", early is None, func=d, node=n.ast,
+                                   instance="_deploy:set-after-deploy", message=f"waiters are released before `{n.text(60)}` (which deploys the connector) has completed",
+                                   witness=gd.describe(early) if early else [])
+                            return
     ctx.require(bool(dep) and bool(reg) and bool(sets), "C26.R5: deploy / registration / event nodes not found in _deploy")
     # on the eager path: no set() reachable from the registration without passing connector.deploy(), except on failure routes
     eager_reg = [r for r in reg if any(d_ in gd.reach([r.id]) for d_ in dep)]
